@@ -3,7 +3,7 @@
 From Coq Require Import List ZArith NArith Bool Arith Lia.
 From Coq.Strings Require Import Byte.
 Import ListNotations.
-From BWLexer Require Import Utf8 Unicode Lexer LexerProofs CaseProofs WsProofs WsSim.
+From BWLexer Require Import Utf8 Unicode Lexer LexerProofs Utf8Proofs CaseProofs WsProofs WsSim.
 From BWLexer.Gen Require Import LexTablesGen.
 
 (* ---------------------------------------------------------------- what a state function leaves behind *)
@@ -205,7 +205,6 @@ Qed.
 Lemma wsum_app : forall a b, wsum (a ++ b) = wsum a + wsum b.
 Proof. induction a as [|[r w] a IH]; intro b; cbn [app wsum]; [reflexivity|]. rewrite IH. lia. Qed.
 
-Definition widths_pos (x : list rw) : Prop := Forall (fun p => 1 <= snd p) x.
 
 Lemma wsum_zero x : widths_pos x -> wsum x = 0 -> x = [].
 Proof. destruct x as [|[r w] x]; [reflexivity|]. intros H E. inversion H; subst. cbn in *. lia. Qed.
@@ -312,81 +311,6 @@ Proof.
   destruct (sim_run U HU ws1 ws2 b W1 W2 N1 N2 F SToken x 0 0 ItemError (wsum r1) pre t post true) as (base & Eb & Es & Er); auto.
   - apply init_wf. reflexivity.
   - exists base. split; [exact Eb|]. split; [exact Es|]. unfold y2 in Er. fold r2 in Er. rewrite M2 in Er. now inversion Er.
-Qed.
-
-(* ---------------------------------------------------------------- bytes: decoding splits in front of an ASCII byte *)
-Lemma first_info_lead z sz lo hi : first_info z = LLead sz lo hi -> (128 <= lo)%Z.
-Proof.
-  unfold first_info. repeat match goal with |- context [if ?c then _ else _] => destruct c end;
-    intro H; inversion H; subst; lia.
-Qed.
-
-Lemma ascii_not_in_range a lo hi : (bz a < 128)%Z -> (128 <= lo)%Z -> in_range lo hi (bz a) = false.
-Proof. intros H1 H2. unfold in_range. destruct (Z.leb_spec lo (bz a)); [lia|reflexivity]. Qed.
-
-Lemma decode_all_split : forall n xb, length xb <= n -> forall a s, (bz a < 128)%Z ->
-  decode_all (xb ++ a :: s) = decode_all xb ++ decode_all (a :: s).
-Proof.
-  induction n as [|n IH]; intros xb Hn a s Ha; [destruct xb; [reflexivity|cbn in Hn; lia]|].
-  destruct xb as [|b0 t]; [reflexivity|]. cbn [length] in Hn.
-  assert (NC : is_cont (bz a) = false) by (apply ascii_not_in_range; lia).
-  (* the "bad" continuation (RuneError, 1) :: decode_all t splits by induction; name both sides *)
-  assert (HB : exists L R, L = (rune_error, 1%nat) :: decode_all (t ++ a :: s) /\ R = (rune_error, 1%nat) :: decode_all t /\
-                           L = R ++ decode_all (a :: s)).
-  { eexists _, _. split; [reflexivity|]. split; [reflexivity|]. cbn [app]. f_equal. apply IH; [lia|assumption]. }
-  destruct HB as (L & R & EL & ER & HB).
-  cbn [app]. cbn [decode_all]. rewrite <- EL, <- ER.
-  destruct (first_info (bz b0)) as [| |sz lo hi] eqn:FI.
-  - cbn [app]. f_equal. apply IH; [lia|assumption].
-  - exact HB.
-  - pose proof (first_info_lead _ _ _ _ FI) as Hlo.
-    destruct t as [|b1 t1].
-    + cbn [app]. rewrite (ascii_not_in_range a lo hi Ha Hlo). cbn [negb]. exact HB.
-    + cbn [app length] in *. destruct (negb (in_range lo hi (bz b1))); [exact HB|].
-      destruct sz as [|[|[|sz]]].
-      * destruct t1 as [|b2 t2].
-        -- cbn [app]. rewrite NC. cbn [negb]. exact HB.
-        -- cbn [app length] in *. destruct (negb (is_cont (bz b2))); [exact HB|].
-           destruct t2 as [|b3 t3].
-           ++ cbn [app]. rewrite NC. cbn [negb]. exact HB.
-           ++ cbn [app length] in *. destruct (negb (is_cont (bz b3))); [exact HB|].
-              cbn [app]. f_equal. apply IH; [lia|assumption].
-      * destruct t1 as [|b2 t2].
-        -- cbn [app]. rewrite NC. cbn [negb]. exact HB.
-        -- cbn [app length] in *. destruct (negb (is_cont (bz b2))); [exact HB|].
-           destruct t2 as [|b3 t3].
-           ++ cbn [app]. rewrite NC. cbn [negb]. exact HB.
-           ++ cbn [app length] in *. destruct (negb (is_cont (bz b3))); [exact HB|].
-              cbn [app]. f_equal. apply IH; [lia|assumption].
-      * cbn [app]. f_equal. apply IH; [lia|assumption].
-      * destruct t1 as [|b2 t2].
-        -- cbn [app]. rewrite NC. cbn [negb]. exact HB.
-        -- cbn [app length] in *. destruct (negb (is_cont (bz b2))); [exact HB|].
-           destruct sz as [|sz].
-           ++ cbn [app]. f_equal. apply IH; [lia|assumption].
-           ++ destruct t2 as [|b3 t3].
-              ** cbn [app]. rewrite NC. cbn [negb]. exact HB.
-              ** cbn [app length] in *. destruct (negb (is_cont (bz b3))); [exact HB|].
-                 cbn [app]. f_equal. apply IH; [lia|assumption].
-Qed.
-
-Lemma decode_widths_pos : forall n s, length s <= n -> widths_pos (decode_all s).
-Proof.
-  unfold widths_pos.
-  induction n as [|n IH]; intros s Hn; [destruct s; [constructor|cbn in Hn; lia]|].
-  destruct s as [|b0 t]; [constructor|]. cbn [length] in Hn.
-  assert (Hbad : Forall (fun p : rw => 1 <= snd p) ((rune_error, 1) :: decode_all t)) by (constructor; [cbn; lia|apply IH; lia]).
-  cbn [decode_all]. destruct (first_info (bz b0)) as [| |sz lo hi]; [constructor; [cbn; lia|apply IH; lia]|exact Hbad|].
-  destruct t as [|b1 t1]; [exact Hbad|]. cbn [length] in Hn. destruct (negb _); [exact Hbad|].
-  destruct sz as [|[|[|sz]]].
-  - destruct t1 as [|b2 t2]; [exact Hbad|]. destruct (negb _); [exact Hbad|].
-    destruct t2 as [|b3 t3]; [exact Hbad|]. destruct (negb _); [exact Hbad|]. constructor; [cbn; lia|apply IH; cbn [length] in *; lia].
-  - destruct t1 as [|b2 t2]; [exact Hbad|]. destruct (negb _); [exact Hbad|].
-    destruct t2 as [|b3 t3]; [exact Hbad|]. destruct (negb _); [exact Hbad|]. constructor; [cbn; lia|apply IH; cbn [length] in *; lia].
-  - constructor; [cbn; lia|apply IH; lia].
-  - destruct t1 as [|b2 t2]; [exact Hbad|]. destruct (negb _); [exact Hbad|]. destruct sz as [|sz].
-    + constructor; [cbn; lia|apply IH; cbn [length] in *; lia].
-    + destruct t2 as [|b3 t3]; [exact Hbad|]. destruct (negb _); [exact Hbad|]. constructor; [cbn; lia|apply IH; cbn [length] in *; lia].
 Qed.
 
 (* ---------------------------------------------------------------- whole lexer, bytes *)
